@@ -3,6 +3,7 @@ Lemmas behind C20 (H1, H6): `GeneratePrefixes` accepts exactly the complete
 length vectors and assigns a prefix-free canonical code; `RangeEncoder`.
 -/
 import Compress.Prefix.Spec
+import Compress.Proofs.PrefixCodesAux
 
 namespace Compress.Proofs.PrefixCodes
 open Compress Compress.Prefix
@@ -11,22 +12,198 @@ open Compress Compress.Prefix
     when the lengths are Kraft-complete. -/
 theorem generatePrefixes_ok_iff (cs : List Code) (h : ValidLens cs) :
     (∃ r, generatePrefixes cs = .ok r) ↔ KraftComplete (cs.map (·.len)) := by
-  sorry
+  obtain ⟨hrange, hgp⟩ := gp_valid cs h
+  have hle : ∀ l ∈ cs.map (·.len), l ≤ maxB cs := by
+    intro l hl
+    obtain ⟨c, hc, rfl⟩ := List.mem_map.1 hl
+    exact (hrange c hc).2
+  have hk : kraftScaled (cs.map (·.len)) (maxB cs) = endCode cs (maxB cs) :=
+    kraftScaled_eq_endCode cs _ (fun c hc => (hrange c hc).2)
+  rw [hgp]
+  constructor
+  · rintro ⟨r, hr⟩
+    split at hr
+    · cases hr
+    · rename_i hE
+      have hE : endCode cs (maxB cs) = 2 ^ maxB cs := Decidable.of_not_not hE
+      intro m hm
+      have hMm : maxB cs ≤ m :=
+        foldl_max_le cs 0 m (Nat.zero_le _) (fun c hc => hm _ (List.mem_map.2 ⟨c, hc, rfl⟩))
+      rw [kraftScaled_scale _ (maxB cs) m hle hMm, hk, hE, ← Nat.pow_add]
+      congr 1; omega
+  · intro hK
+    have := hK (maxB cs) hle
+    rw [hk] at this
+    exact ⟨_, by rw [if_neg (by simp [this])]⟩
 
 /-- H1 (shape): the result keeps symbols and lengths, in order. -/
 theorem generatePrefixes_shape (cs r : List Code) (h : generatePrefixes cs = .ok r) :
     r.map (·.sym) = cs.map (·.sym) ∧ r.map (·.len) = cs.map (·.len) := by
-  sorry
+  match cs with
+  | [] =>
+    simp only [generatePrefixes] at h
+    cases h; simp
+  | [c] =>
+    simp only [generatePrefixes] at h
+    split at h
+    · cases h
+    · rename_i hc
+      have hc : c.len = 0 := Decidable.of_not_not hc
+      cases h; simp [hc]
+  | a :: b :: rest =>
+    obtain ⟨next, rfl⟩ := gp_ok_assign (a :: b :: rest) r (by simp) h
+    exact assignVals_shape _ _
 
 /-- H1 (soundness): the assigned code is prefix-free. -/
 theorem generatePrefixes_prefixFree (cs r : List Code) (h : ValidLens cs)
     (hr : generatePrefixes cs = .ok r) : PrefixFree r := by
-  sorry
+  obtain ⟨hrange, hgp⟩ := gp_valid cs h
+  rw [hgp] at hr
+  split at hr
+  · cases hr
+  · rename_i hE
+    have hE : endCode cs (maxB cs) = 2 ^ maxB cs := Decidable.of_not_not hE
+    cases hr
+    refine assignVals_prefixFree (endCode cs) cs (nextFn cs) ?_ ?_ ?_
+    · intro l
+      unfold nextFn endCode
+      split <;> omega
+    · intro c hc
+      exact endCode_le_pow cs (maxB cs) c.len hE (hrange c hc).2
+    · intro a ha b hb d hd
+      have hb' := hrange b hb
+      have ha' := hrange a ha
+      unfold nextFn
+      rw [if_pos (by omega), hd]
+      exact endCode_mul_le_firstCode cs a.len d
 
 /-- H1: every value fits its length. -/
 theorem generatePrefixes_val_lt (cs r : List Code) (h : ValidLens cs)
     (hr : generatePrefixes cs = .ok r) : ∀ c ∈ r, c.val < 2 ^ c.len := by
-  sorry
+  obtain ⟨next, rfl⟩ := gp_ok_assign cs r h.1 hr
+  exact assignVals_val_lt _ _
+
+theorem symsIncreasing_cons (a : Code) (l : List Code) (h : symsIncreasing (a :: l) = true) :
+    (∀ x ∈ l, a.sym < x.sym) ∧ symsIncreasing l = true := by
+  induction l generalizing a with
+  | nil => simp [symsIncreasing]
+  | cons b rest ih =>
+    simp only [symsIncreasing, Bool.and_eq_true, decide_eq_true_eq] at h
+    obtain ⟨h1, h2⟩ := ih b h.2
+    refine ⟨fun x hx => ?_, h.2⟩
+    rcases List.mem_cons.1 hx with rfl | hx
+    · exact h.1
+    · exact Nat.lt_trans h.1 (h1 x hx)
+
+theorem symsIncreasing_pairwise (l : List Code) (h : symsIncreasing l = true) :
+    l.Pairwise (fun a b => a.sym < b.sym) := by
+  induction l with
+  | nil => simp
+  | cons a l ih =>
+    obtain ⟨h1, h2⟩ := symsIncreasing_cons a l h
+    exact List.pairwise_cons.2 ⟨h1, ih h2⟩
+
+/-- H1 (canonicity): the assigned code is canonical. -/
+theorem generatePrefixes_canonical (cs r : List Code) (h : ValidLens cs)
+    (hr : generatePrefixes cs = .ok r) : Canonical r := by
+  obtain ⟨hrange, hgp⟩ := gp_valid cs h
+  rw [hgp] at hr
+  split at hr
+  · cases hr
+  · rename_i hE
+    have hE : endCode cs (maxB cs) = 2 ^ maxB cs := Decidable.of_not_not hE
+    cases hr
+    have h1 : ∀ l, nextFn cs l + lenCount cs l ≤ endCode cs l := by
+      intro l; unfold nextFn endCode; split <;> omega
+    have h2 : ∀ c ∈ cs, endCode cs c.len ≤ 2 ^ c.len :=
+      fun c hc => endCode_le_pow cs (maxB cs) c.len hE (hrange c hc).2
+    have hsym : (assignVals cs (nextFn cs)).Pairwise (fun a b => a.sym < b.sym) := by
+      have := symsIncreasing_pairwise cs h.2.1
+      have e := (assignVals_shape cs (nextFn cs)).1
+      have p : (cs.map (·.sym)).Pairwise (· < ·) := List.pairwise_map.2 this
+      rw [← e] at p
+      exact List.pairwise_map.1 p
+    have hpw := hsym.and (assignVals_pairwise (endCode cs) cs (nextFn cs) h1 h2)
+    have hall := pairwise_forall
+      (R := fun (a b : Code) => (a.sym < b.sym ∧ (a.len = b.len → a.canon < b.canon)) ∨
+        (b.sym < a.sym ∧ (b.len = a.len → b.canon < a.canon)))
+      (fun a b h => h.symm) (hpw.imp (fun h => Or.inl h))
+    have hmem : ∀ x ∈ assignVals cs (nextFn cs), ∃ y ∈ cs, y.len = x.len := by
+      intro x hx
+      have : x.len ∈ (assignVals cs (nextFn cs)).map (·.len) := List.mem_map.2 ⟨x, hx, rfl⟩
+      rw [(assignVals_shape cs (nextFn cs)).2] at this
+      exact List.mem_map.1 this
+    intro a ha b hb hab
+    have hca := assignVals_canon (endCode cs) cs (nextFn cs) h1 h2 a ha
+    have hcb := assignVals_canon (endCode cs) cs (nextFn cs) h1 h2 b hb
+    rcases hab with hlt | ⟨he, hs⟩
+    · refine ⟨?_, fun e => by omega⟩
+      obtain ⟨d, hd⟩ : ∃ d, b.len = a.len + d + 1 := ⟨b.len - a.len - 1, by omega⟩
+      obtain ⟨a', ha', hal⟩ := hmem a ha
+      obtain ⟨b', hb', hbl⟩ := hmem b hb
+      have hb'' := hrange b' hb'
+      have ha'' := hrange a' ha'
+      have hn : nextFn cs b.len = firstCode cs b.len := by
+        unfold nextFn; rw [if_pos (by omega)]
+      have := endCode_mul_le_firstCode cs a.len d
+      rw [← hd, ← hn] at this
+      have e : b.len - a.len = d + 1 := by omega
+      rw [e, if_neg (by omega)]
+      have h5 : (a.canon + 1) * 2 ^ (d + 1) ≤ b.canon :=
+        Nat.le_trans (Nat.le_trans (Nat.mul_le_mul_right _ hca.2) this) hcb.1
+      rw [Nat.add_mul] at h5
+      have := Nat.two_pow_pos (d + 1)
+      omega
+    · have hne : a ≠ b := by intro e; subst e; omega
+      have hc : a.canon < b.canon := by
+        rcases hall a ha b hb hne with h | h
+        · exact h.2 he
+        · omega
+      rw [he, Nat.sub_self, Nat.pow_zero, Nat.mul_one, if_pos rfl]
+      exact ⟨by omega, fun _ => hc⟩
+
+theorem makeRangeCodes_base_ge (bits : List Nat) (b : Nat) :
+    ∀ rc ∈ makeRangeCodes b bits, b ≤ rc.base := by
+  induction bits generalizing b with
+  | nil => simp [makeRangeCodes]
+  | cons nb rest ih =>
+    intro rc hrc
+    simp only [makeRangeCodes, List.mem_cons] at hrc
+    rcases hrc with rfl | h
+    · exact Nat.le_refl _
+    · have := ih _ rc h
+      have := Nat.two_pow_pos nb
+      omega
+
+theorem makeRangeCodes_filter_nil (bits : List Nat) (b ofs : Nat) (h : ofs < b) :
+    (makeRangeCodes b bits).filter (fun rc => rc.base ≤ ofs) = [] := by
+  rw [List.filter_eq_nil_iff]
+  intro rc hrc
+  have := makeRangeCodes_base_ge bits b rc hrc
+  simp; omega
+
+theorem rangeEncode_aux (ofs : Nat) (bits : List Nat) (base : Nat) (hb : bits ≠ [])
+    (hlo : base ≤ ofs) (hhi : ofs < base + (bits.map (2 ^ ·)).foldl (· + ·) 0) :
+    ∃ k, ((makeRangeCodes base bits).filter (fun rc => rc.base ≤ ofs)).length = k + 1 ∧
+      k < (makeRangeCodes base bits).length ∧
+      ((makeRangeCodes base bits).getD k ⟨0, 0⟩).base ≤ ofs ∧
+      ofs < ((makeRangeCodes base bits).getD k ⟨0, 0⟩).end_ := by
+  induction bits generalizing base with
+  | nil => exact absurd rfl hb
+  | cons nb rest ih =>
+    simp only [List.map_cons, List.foldl_cons] at hhi
+    rw [foldl_add_shift] at hhi
+    simp only [makeRangeCodes]
+    rw [List.filter_cons_of_pos (by simpa using hlo)]
+    by_cases hlt : ofs < base + 2 ^ nb
+    · rw [makeRangeCodes_filter_nil _ _ _ hlt]
+      exact ⟨0, by simp [RangeCode.end_, hlo, hlt]⟩
+    · have hne : rest ≠ [] := by
+        intro h; subst h; simp at hhi; omega
+      obtain ⟨k, h0, h1, h2, h3⟩ := ih (base + 2 ^ nb) hne (by omega) (by omega)
+      refine ⟨k + 1, by simp [h0], by simpa using h1, ?_, ?_⟩
+      · simpa using h2
+      · simpa using h3
 
 /-- H6: for stacked ranges built by `MakeRangeCodes`, `Encode` returns the
     range that holds the offset. -/
@@ -35,6 +212,8 @@ theorem rangeEncode_correct (base : Nat) (bits : List Nat) (hb : bits ≠ []) (o
     let rcs := makeRangeCodes base bits
     let s := rangeEncode rcs ofs
     s < rcs.length ∧ (rcs.getD s ⟨0, 0⟩).base ≤ ofs ∧ ofs < (rcs.getD s ⟨0, 0⟩).end_ := by
-  sorry
+  obtain ⟨k, h0, h1, h2, h3⟩ := rangeEncode_aux ofs bits base hb hlo hhi
+  simp only [rangeEncode, h0, Nat.add_sub_cancel]
+  exact ⟨h1, h2, h3⟩
 
 end Compress.Proofs.PrefixCodes
